@@ -247,7 +247,7 @@ def run_case(rs, ctx):
     # (d) other bandits are used *at the same time* from other threads of the caller (a server answering several models):
     # mirrors of the scenario (other seed, shifted data, identical call shapes) plus one unrelated bandit loop in their own
     # threads while the scenario is replayed; the interpreter hands the GIL over every microsecond
-    if (ctx.index // 48 + ctx.index) % 2 == 0:
+    if (ctx.index // 48 + ctx.index) % 2 == 0 or p == "none":  # every case without neighbourhood policy (they are cheap)
         mirrors = []
         for k_ in range(2):
             mc = copy.deepcopy(cfg)
@@ -260,7 +260,7 @@ def run_case(rs, ctx):
         mirrors.append({"cfg": others[-1]["cfg"], "ops": others[-1]["ops"]})
         if p == "none":
             mirrors.append(copy.deepcopy(mirrors[0]))  # cheap policies: one more mirror and more replays
-        d = concurrent_twin(cfg, ops, mirrors, ref, ctx, repeats=(3 if ctx.tier == "quick" else 5) * (5 if p == "none" else 1))
+        d = concurrent_twin(cfg, ops, mirrors, ref, ctx, repeats=(3 if ctx.tier == "quick" else 5) * (8 if p == "none" else 1))
         ctx.ev()
         if d:
             ctx.violation("%s seed=%d: while other bandits were being used from other threads, the scenario gave other results "
